@@ -9,6 +9,8 @@ Extracted (exit != 0 if an anchored item is not found or has an unexpected shape
   * `emits`           — per module: the warning names its (non-test) source can put into
                         `CweWarning.name`: the module name plus every `"CWE<digits>"` literal   (module file/dir)
   * `modulesLkm`      — `MODULES_LKM`                                      (checkers.rs)
+  * `lkmAcceptance`   — `LKM_CWE` of the acceptance tests, normalised `cwe_252` -> `CWE252`   (test/src/lib.rs);
+                        an independent statement of which checks must run on kernel modules
   * `defaultExcluded` — the names compared with `!=` in the default-run `modules.retain(…)`  (caller/src/main.rs)
                         (the extractor insists on the `if let Some(partial) … else if is_lkm … else …` shape)
   * `piModules`, `stringAbstractionModules` — the dependency lists of main.rs
@@ -190,6 +192,21 @@ def main():
     if not fes or lk_nonfalse[0] not in fes.group(0):
         die("runtime_memory_image.rs: the `is_lkm` conjunction is not inside from_elf_sections")
 
+    # independent statement of what must work on kernel modules: the acceptance-test list of the repository
+    test_lib = strip_comments(read(os.path.join(repo, "test", "src", "lib.rs")))
+    acc = re.search(r'pub const LKM_CWE\s*:\s*&\[&str\]\s*=\s*&\[(.*?)\];', test_lib, re.S)
+    if not acc:
+        die("`pub const LKM_CWE: &[&str] = &[…];` not found in test/src/lib.rs")
+    acc_names = re.findall(r'"([^"]*)"', acc.group(1))
+    lkm_acceptance = []
+    for a in acc_names:
+        am = re.fullmatch(r"cwe_(\d+)", a)
+        if not am:
+            die("LKM_CWE entry %r is not of the form cwe_<digits>" % a)
+        lkm_acceptance.append("CWE" + am.group(1))
+    if not lkm_acceptance:
+        die("LKM_CWE is empty")
+
     o = []
     o.append("/- GENERATED by extract/modules.py from lib.rs, checkers.rs, caller/src/main.rs, utils/log.rs and the")
     o.append("   CWE_MODULE statics — do not edit. -/")
@@ -205,6 +222,9 @@ def main():
     o.append("")
     o.append("/-- `MODULES_LKM` -/")
     o.append("def modulesLkm : List String := " + lean_list([lean_str(x) for x in lkm]))
+    o.append("")
+    o.append("/-- `LKM_CWE` of test/src/lib.rs (the checks the acceptance tests run on kernel-module samples), as check names -/")
+    o.append("def lkmAcceptance : List String := " + lean_list([lean_str(x) for x in lkm_acceptance]))
     o.append("")
     o.append("/-- names `n` of the conjuncts `module.name != n` of the default-run filter -/")
     o.append("def defaultExcluded : List String := " + lean_list([lean_str(x) for x in excluded]))
